@@ -117,7 +117,7 @@ fn format_radix(x: i64, radix: u32) -> String {
     let mut result: VecDeque<char> = VecDeque::new();
 
     let (mut x, negative) = if x < 0 {
-        (-x as u64, true)
+        (x.unsigned_abs(), true)
     } else {
         (x as u64, false)
     };
